@@ -116,6 +116,11 @@ structure Cfg where
       operation's number and without `create_suggestion_operation` (fixed); at the pinned commit the
       abandoned operation is returned unchanged, for ever -/
   resumesAbandonedOp : Bool := true
+  /-- `CheckTrialEarlyStoppingState` treats an ACTIVE record it finds under the operation lock like a stale one
+      and RECOMPUTES it (only a server that died inside the call, or an algorithm raising a BaseException, leaves
+      one): the stored answer is returned only for a finished, recent record (fixed); at the pinned commit an
+      ACTIVE record answers every later check, for ever -/
+  esResumesActive : Bool := true
   deriving Repr, DecidableEq
 
 def Cfg.fixed : Cfg :=
@@ -375,6 +380,11 @@ def esCompute (cfg : Cfg) (st : Study) (id : Nat) (es : EsOutcome) : Resp × Stu
         else (.earlyStop o.shouldStop, st3)
       | none => (.err .notFound .raw, st3)
 
+/-- does `CheckTrialEarlyStoppingState` answer from the stored record `o`?  Repaired: only a finished and
+    recent record (`status != ACTIVE and recent`); pinned commit: an ACTIVE record or a recent one -/
+def esReturnsStored (cfg : Cfg) (o : EsOp) : Bool :=
+  if cfg.esResumesActive then (!o.active && !cfg.esRecycle) else (o.active || !cfg.esRecycle)
+
 /-- `CheckTrialEarlyStoppingState` after the immutability check -/
 def earlyStopBody (cfg : Cfg) (st : Study) (id : Nat) (es : EsOutcome) : Resp × Study :=
   match st.findTrial id with
@@ -385,7 +395,7 @@ def earlyStopBody (cfg : Cfg) (st : Study) (id : Nat) (es : EsOutcome) : Resp ×
       match esOpOf st id with
       | none => esCompute cfg (st.putEsOp { trialId := id, active := true, shouldStop := false }) id es
       | some o =>
-        if o.active || !cfg.esRecycle then (.earlyStop o.shouldStop, st)
+        if esReturnsStored cfg o then (.earlyStop o.shouldStop, st)
         else esCompute cfg (st.putEsOp { o with active := true, shouldStop := false }) id es
 
 /-- selection of the final measurement in `CompleteTrial`; `none` = the ValueError branch -/
